@@ -53,6 +53,13 @@ theorem OAgree.bind {α β : Type} {R : α → α → Prop} {S : β → β → P
   · exact h
   · exact hf _ _ h
 
+theorem OAgree.bind_same' {α β : Type} {S : β → β → Prop} (r : Outcome α)
+    {f f' : α → Outcome β} (hf : ∀ a, r = .ok a → OAgree S (f a) (f' a)) :
+    OAgree S (r >>= f) (r >>= f') := by
+  cases r
+  · rfl
+  · exact hf _ rfl
+
 theorem OAgree.bind_same {α β : Type} {S : β → β → Prop} (r : Outcome α)
     {f f' : α → Outcome β} (hf : ∀ a, OAgree S (f a) (f' a)) :
     OAgree S (r >>= f) (r >>= f') := by
@@ -81,13 +88,20 @@ theorem bezier_agree (fuel : Nat) (hbz : BezierPure P fuel) (pts : List (Pos P))
   · exact h
   · exact ⟨h.1, rfl, h.2.1, h.2.2⟩
 
-theorem calculateSubpath_agree (fuel : Nat) (hbz : BezierPure P fuel) (mode : GameMode) (seg : List (Pos P)) (h2 : 2 ≤ seg.length)
-    (kind : SplineType) (o : F) (b b' : BezierBuffers P) (hb : b.WF) (hb' : b'.WF) :
+theorem calculateSubpath_agree (fuel : Nat) (mode : GameMode) (seg : List (Pos P)) (h2 : 2 ≤ seg.length)
+    (kind : SplineType) (hbz : kind = .linear ∨ kind = .catmull ∨ BezierPure P fuel)
+    (o : F) (b b' : BezierBuffers P) (hb : b.WF) (hb' : b'.WF) :
     OAgree SubAgree (calculateSubpath fuel mode seg kind o b) (calculateSubpath fuel mode seg kind o b') := by
   unfold calculateSubpath
   cases kind with
   | linear => exact ⟨rfl, rfl, hb, hb'⟩
-  | bspline => exact bezier_agree fuel hbz seg h2 b b' hb hb' o
+  | bspline =>
+    have hbz : BezierPure P fuel := by
+      rcases hbz with h | h | h
+      · cases h
+      · cases h
+      · exact h
+    exact bezier_agree fuel hbz seg h2 b b' hb hb' o
   | catmull =>
     simp only []
     apply OAgree.bind_same
@@ -96,6 +110,11 @@ theorem calculateSubpath_agree (fuel : Nat) (hbz : BezierPure P fuel) (mode : Ga
     · exact ⟨rfl, rfl, hb, hb'⟩
     · exact ⟨rfl, rfl, hb, hb'⟩
   | perfectCurve =>
+    have hbz : BezierPure P fuel := by
+      rcases hbz with h | h | h
+      · cases h
+      · cases h
+      · exact h
     simp only []
     split
     · apply OAgree.bind_same
@@ -106,7 +125,12 @@ theorem calculateSubpath_agree (fuel : Nat) (hbz : BezierPure P fuel) (mode : Ga
     · simp only [Outcome.pure_eq_ok, Outcome.ok_bind]
       exact bezier_agree fuel hbz seg h2 b b' hb hb' o
 
-theorem segBody_agree (fuel : Nat) (hbz : BezierPure P fuel) (mode : GameMode) (points : List (PathControlPoint P))
+/-- every typed control point is linear or Catmull: no segment can reach the Bezier code. -/
+def BezierFree (points : List (PathControlPoint P)) : Prop :=
+  ∀ p ∈ points, ∀ t, p.pathType = some t → t.kind = .linear ∨ t.kind = .catmull
+
+theorem segBody_agree (fuel : Nat) (mode : GameMode) (points : List (PathControlPoint P))
+    (hbz : BezierFree points ∨ BezierPure P fuel)
     (vertices : List (Pos P)) (st st' : SegState P F) (i : Nat) (h : SegAgree st st') :
     OAgree SegAgree (segBody fuel mode points vertices st i) (segBody fuel mode points vertices st' i) := by
   obtain ⟨path, optLen, bez, start⟩ := st
@@ -126,9 +150,22 @@ theorem segBody_agree (fuel : Nat) (hbz : BezierPure P fuel) (mode : GameMode) (
     | [v] => exact ⟨rfl, rfl, rfl, hb, hb'⟩
     | v :: w :: rest =>
       simp only []
-      apply OAgree.bind_same
-      intro sp
-      apply OAgree.bind (calculateSubpath_agree fuel hbz mode (v :: w :: rest) (by simp) _ _ bez bez' hb hb')
+      apply OAgree.bind_same'
+      intro sp hsp
+      have hkind : (match sp.pathType with | none => SplineType.linear | some t => t.kind) = .linear ∨
+          (match sp.pathType with | none => SplineType.linear | some t => t.kind) = .catmull ∨ BezierPure P fuel := by
+        rcases hbz with hfree | hpure
+        · have hmem : sp ∈ points := by
+            have := (getI_ok_iff points start sp).mp hsp
+            exact List.mem_of_getElem? this
+          cases hpt : sp.pathType with
+          | none => exact Or.inl rfl
+          | some t =>
+            rcases hfree sp hmem t hpt with h | h
+            · exact Or.inl h
+            · exact Or.inr (Or.inl h)
+        · exact Or.inr (Or.inr hpure)
+      apply OAgree.bind (calculateSubpath_agree fuel mode (v :: w :: rest) (by simp) _ hkind _ bez bez' hb hb')
       rintro ⟨out, o, bz⟩ ⟨out', o', bz'⟩ ⟨e1, e2, w1, w2⟩
       simp only at e1 e2 w1 w2
       subst e1 e2
@@ -137,7 +174,8 @@ theorem segBody_agree (fuel : Nat) (hbz : BezierPure P fuel) (mode : GameMode) (
       intro p
       exact ⟨rfl, rfl, rfl, w1, w2⟩
 
-theorem foldlM_agree (fuel : Nat) (hbz : BezierPure P fuel) (mode : GameMode) (points : List (PathControlPoint P))
+theorem foldlM_agree (fuel : Nat) (mode : GameMode) (points : List (PathControlPoint P))
+    (hbz : BezierFree points ∨ BezierPure P fuel)
     (vertices : List (Pos P)) (is : List Nat) (st st' : SegState P F) (h : SegAgree st st') :
     OAgree SegAgree (is.foldlM (segBody fuel mode points vertices) st)
       (is.foldlM (segBody fuel mode points vertices) st') := by
@@ -145,18 +183,19 @@ theorem foldlM_agree (fuel : Nat) (hbz : BezierPure P fuel) (mode : GameMode) (p
   | nil => exact h
   | cons i rest ih =>
     simp only [List.foldlM_cons]
-    exact OAgree.bind (segBody_agree fuel hbz mode points vertices st st' i h) (fun a a' ha => ih a a' ha)
+    exact OAgree.bind (segBody_agree fuel mode points hbz vertices st st' i h) (fun a a' ha => ih a a' ha)
 
 /-- **purity for non-empty control-point lists**: the curve (or the panic / fuel outcome) does not depend on
 what the buffers held before, for all well-formed buffers (the four Bezier scratch vectors have equal
 lengths — true of `CurveBuffers::default()`; only `extend_exact` resizes them, `BezierBuffers.extendExact_wf`).
 Covers every segment kind, **given** `BezierPure` (Lemmas/BezierPure.lean): the same statement for `approximate_bezier`
 alone, an explicit hypothesis that is not proved. Linear, Catmull and accepted-arc segments do not touch the scratch buffers. -/
-theorem compute_ignores_buffers_modulo_bezier (fuel : Nat) (hbz : BezierPure P fuel) (mode : GameMode) (pts : List (PathControlPoint P))
+theorem compute_ignores_buffers_core (fuel : Nat) (mode : GameMode) (pts : List (PathControlPoint P))
+    (hbz : BezierFree pts ∨ BezierPure P fuel)
     (L : Option F) (b₁ b₂ : CurveBuffers P F) (hne : pts ≠ []) (h₁ : b₁.bezier.WF) (h₂ : b₂.bezier.WF) :
     observe (Curve.new fuel mode pts L b₁) = observe (Curve.new fuel mode pts L b₂) := by
   have hemp : pts.isEmpty = false := by cases pts <;> simp_all
-  have key := foldlM_agree fuel hbz mode pts (pts.map (·.pos)) (List.range pts.length)
+  have key := foldlM_agree fuel mode pts hbz (pts.map (·.pos)) (List.range pts.length)
     { path := [], optLen := (0 : F), bezier := b₁.bezier, start := 0 }
     { path := [], optLen := (0 : F), bezier := b₂.bezier, start := 0 } ⟨rfl, rfl, rfl, h₁, h₂⟩
   unfold observe Curve.new compute calculatePath
@@ -174,6 +213,22 @@ theorem compute_ignores_buffers_modulo_bezier (fuel : Nat) (hbz : BezierPure P f
     obtain ⟨e1, e2, _, _, _⟩ := key
     simp only [Outcome.ok_bind, Outcome.pure_eq_ok, e1, e2]
     cases calculateLength s'.path L s'.optLen <;> rfl
+
+/-- **`compute_ignores_buffers_partial`** (unconditional): non-empty control points whose typed points are all
+linear or Catmull (segments starting at an untyped point are linear) — the curve does not depend on the buffers. -/
+theorem compute_ignores_buffers_partial (fuel : Nat) (mode : GameMode) (pts : List (PathControlPoint P))
+    (hfree : BezierFree pts) (L : Option F) (b₁ b₂ : CurveBuffers P F) (hne : pts ≠ [])
+    (h₁ : b₁.bezier.WF) (h₂ : b₂.bezier.WF) :
+    observe (Curve.new fuel mode pts L b₁) = observe (Curve.new fuel mode pts L b₂) :=
+  compute_ignores_buffers_core fuel mode pts (Or.inl hfree) L b₁ b₂ hne h₁ h₂
+
+/-- the same for **every** segment kind (Bezier, B-spline, perfect curves with their Bezier fallback), given
+`BezierPure`: `approximate_bezier` alone does not depend on the contents of its scratch vectors (not proved). -/
+theorem compute_ignores_buffers_modulo_bezier (fuel : Nat) (hbz : BezierPure P fuel) (mode : GameMode)
+    (pts : List (PathControlPoint P)) (L : Option F) (b₁ b₂ : CurveBuffers P F) (hne : pts ≠ [])
+    (h₁ : b₁.bezier.WF) (h₂ : b₂.bezier.WF) :
+    observe (Curve.new fuel mode pts L b₁) = observe (Curve.new fuel mode pts L b₂) :=
+  compute_ignores_buffers_core fuel mode pts (Or.inr hbz) L b₁ b₂ hne h₁ h₂
 
 /-- the full statement of the property: also for an empty control-point list. -/
 def compute_ignores_buffers_statement (P F : Type) [Scalar P] [Scalar F] [Cvt P F] [Trig F] [Trig P] : Prop :=
